@@ -1,5 +1,8 @@
 import CTV.Lemmas.Tbs
+import CTV.Lemmas.TbsLax
 import CTV.Gen.TbsFacts
+import CTV.Props.C04SctList
+import CTV.Lemmas.SigScheme
 /-!
 # C03 — precertificate route and embedded-SCT route yield the identical log entry
 
@@ -35,8 +38,12 @@ theorem facts_as_modelled :
     Gen.removeSCTListReturns = "removeExtension(tbsData, OIDExtensionCTSCT)" ∧
     Gen.removeCTPoisonReturns = "BuildPrecertTBS(tbsData, nil)" ∧
     Gen.buildPrecertTBSFirst = "data, err := removeExtension(tbsData, OIDExtensionCTPoison)" ∧
-    Gen.removeExtensionEdit = ["tbs.Extensions = append(tbs.Extensions[:extAt], tbs.Extensions[extAt+1:]...)"] ∧
     Gen.leafFromChainCalls = ["x509.BuildPrecertTBS(cert.RawTBSCertificate, preIssuer)"] ∧
+    -- who is a pre-issuer: the CT key purpose, the row of the EKU table that maps it, and the two loops that look for it
+    ctEkuOid = oidContent Gen.oidExtKeyUsageCT ∧
+    Gen.ekuTableCTRows = ["{ExtKeyUsageCertificateTransparency, oidExtKeyUsageCertificateTransparency}"] ∧
+    Gen.isPreIssuerLoop = "for _, eku := range issuer.ExtKeyUsage { if eku == x509.ExtKeyUsageCertificateTransparency { return true } }" ∧
+    Gen.buildPrecertEkuLoop = "for _, eku := range preIssuer.ExtKeyUsage { if eku == ExtKeyUsageCertificateTransparency { seenCTEKU = true break } }" ∧
     Gen.leafForEmbeddedCalls = ["x509.RemoveSCTList(cert.RawTBSCertificate)"] ∧
     -- the authority-key-id update of BuildPrecertTBS (`akiUpdate`, `setFirst`, `eraseFirst`, `preIssuerEdit` are its transcription)
     Gen.buildPrecertIssuerKeyIDLoop =
@@ -44,19 +51,43 @@ theorem facts_as_modelled :
     Gen.buildPrecertKeyAtLoop =
       "for i, ext := range tbs.Extensions { if ext.Id.Equal(OIDExtensionAuthorityKeyId) { keyAt = i break } }" ∧
     Gen.buildPrecertAkiConds = ["if keyAt >= 0", "  if issuerKeyID != nil", "  else", "else if issuerKeyID != nil"] ∧
-    Gen.buildPrecertValueEdit = ["tbs.Extensions[keyAt].Value = issuerKeyID"] ∧
-    Gen.buildPrecertExtEdits = ["tbs.Extensions = append(tbs.Extensions[:keyAt], tbs.Extensions[keyAt+1:]...)",
-                                "tbs.Extensions = append(tbs.Extensions, authKeyIDExt)"] ∧
     Gen.buildPrecertAppended = ["authKeyIDExt := pkix.Extension{ Id: OIDExtensionAuthorityKeyId, Critical: false, Value: issuerKeyID, }"] ∧
-    Gen.buildPrecertIssuerEdit = ["tbs.Issuer.FullBytes = preIssuer.RawIssuer"] := by
-  refine ⟨by decide, by decide, by decide, by decide, by decide, by decide, by decide, by decide, by decide, by decide,
-    by decide, by decide, by decide, by decide, by decide, by decide, by decide, by decide, by decide, by decide, by decide⟩
-
-/-- the SCT-list length prefixes are two bytes wide for the regenerated limits (`byteCount(maxlen) = 2`) -/
-def genLim : SctLimits := ⟨Gen.sctItemMin, Gen.sctItemMax, Gen.sctListMin, Gen.sctListMax⟩
-
-theorem genLim_two_byte_prefixes : 256 ≤ genLim.itemMax ∧ genLim.itemMax < 65536 ∧ 256 ≤ genLim.listMax ∧ genLim.listMax < 65536 := by
-  decide
+    -- the COMPLETE list of statements that write to `tbs` (or hand out its address), each with every condition that guards it:
+    -- an additional write, a dropped one (`tbs.Raw = nil`), or one moved under another condition changes these lists
+    Gen.removeExtensionWrites =
+      ["=> var tbs tbsCertificate",
+       "=> rest, err := asn1.Unmarshal(tbsData, &tbs)",
+       "=> tbs.Extensions = append(tbs.Extensions[:extAt], tbs.Extensions[extAt+1:]...)",
+       "=> tbs.Raw = nil"] ∧
+    Gen.buildPrecertWrites =
+      ["=> var tbs tbsCertificate",
+       "=> rest, err := asn1.Unmarshal(data, &tbs)",
+       "if preIssuer != nil; => tbs.Issuer.FullBytes = preIssuer.RawIssuer",
+       "if preIssuer != nil; if keyAt >= 0; if issuerKeyID != nil; => tbs.Extensions[keyAt].Value = issuerKeyID",
+       "if preIssuer != nil; if keyAt >= 0; else of issuerKeyID != nil; => tbs.Extensions = append(tbs.Extensions[:keyAt], tbs.Extensions[keyAt+1:]...)",
+       "if preIssuer != nil; else of keyAt >= 0; if issuerKeyID != nil; => tbs.Extensions = append(tbs.Extensions, authKeyIDExt)",
+       "if preIssuer != nil; => tbs.Raw = nil"] ∧
+    -- what is marshalled and returned
+    Gen.removeExtensionMarshals = ["=> data, err := asn1.Marshal(tbs)"] ∧
+    Gen.buildPrecertMarshals = ["=> data, err = asn1.Marshal(tbs)"] ∧
+    Gen.removeExtensionData = ["=> data, err := asn1.Marshal(tbs)"] ∧
+    Gen.buildPrecertData = ["=> data, err := removeExtension(tbsData, OIDExtensionCTPoison)", "=> data, err = asn1.Marshal(tbs)"] ∧
+    Gen.removeExtensionReturns =
+      ["if err != nil; => return nil, <error>",
+       "else of err != nil; if rLen > 0; => return nil, <error>",
+       "range tbs.Extensions; if ext.Id.Equal(oid); <regenerated test on extAt>; => return nil, <error>",
+       "<regenerated test on extAt>; => return nil, <error>",
+       "if err != nil; => return nil, <error>",
+       "=> return data, nil"] ∧
+    Gen.buildPrecertReturns =
+      ["if err != nil; => return nil, <error>",
+       "if err != nil; => return nil, <error>",
+       "else of err != nil; if rLen > 0; => return nil, <error>",
+       "if preIssuer != nil; if !seenCTEKU; => return nil, <error>",
+       "if err != nil; => return nil, <error>",
+       "=> return data, nil"] := by
+  repeat' apply And.intro
+  all_goals decide
 
 /-! ## DER: encodings are unique -/
 
@@ -246,6 +277,71 @@ example : (exBase.withExts (insertAt [exKU] 0 exPoison)).wf = true ∧ (exBase.w
     (buildPrecertTBS (marshalTbs (exBase.withExts [exPoison, exKU])) none).isSome = true := by
   set_option maxRecDepth 100000 in decide
 
+/-! ## every accepted input, canonical or not
+
+`laxTbs` (CTV/Model/TbsLax.lean) models what `asn1.Unmarshal` makes of **every** TBSCertificate it accepts — explicit v1, an explicit
+`critical FALSE`, UTCTime without seconds, GeneralizedTime inside 1950..2049, trailing elements, wrong `[0]`/`[3]` wrapper lengths … —
+in the normal form `asn1.Marshal` writes; `removeExtLax` / `buildPrecertTBSLax` are the two functions over it. These are what the
+driver answers with on every trace line, so the implementation's real result is compared for every input, not only canonical ones. -/
+
+/-- **On canonical input the two models coincide** (so everything proved about `parseTbs` / `removeExt` / `buildPrecertTBS`
+holds for the functions the driver runs): same content, same results; and an input is canonical iff the lax model reproduces it. -/
+theorem lax_agrees_on_canonical (bs : Bytes) (t : Tbs) (h : parseTbs bs = some t) :
+    laxTbs bs = some t ∧ remarshalLax bs = some bs ∧
+    (∀ oid, removeExtLax oid bs = removeExt oid bs) ∧ (∀ p, buildPrecertTBSLax bs p = buildPrecertTBS bs p) := by
+  have hl := lax_of_canonical h
+  refine ⟨hl, by simp [remarshalLax, hl, (parseTbs_eq h).1], fun oid => removeExtLax_canonical oid h, ?_⟩
+  intro p
+  unfold buildPrecertTBSLax buildPrecertTBS
+  rw [removeExtLax_canonical poisonOid h]
+  cases hr : removeExt poisonOid bs with
+  | none => rfl
+  | some d =>
+    obtain ⟨A, x, B, _, _, _, _, _, hp⟩ := (remove_exact poisonOid bs t h).2 d hr
+    simp only
+    rw [hp, lax_of_canonical hp]
+    cases p <;> rfl
+
+theorem canonical_iff_reproduced (bs : Bytes) (t : Tbs) :
+    parseTbs bs = some t ↔ (laxTbs bs = some t ∧ t.wf = true ∧ marshalTbs t = bs) := by
+  constructor
+  · intro h; exact ⟨lax_of_canonical h, (parseTbs_eq h).2, (parseTbs_eq h).1⟩
+  · rintro ⟨_, hw, hm⟩; exact (canonical_iff bs t).mpr ⟨hw, hm⟩
+
+/- FULL (clause 1 for every accepted input): `∀ pre fin, laxTbs pre = some (t.withExts (insertAt es i poison)) →
+   laxTbs fin = some (t.withExts (insertAt es j sct)) → buildPrecertTBSLax pre none = removeExtLax sctOid fin`, with no further hypothesis.
+   PROVED below with the two hypotheses that those normal forms are well-formed (`wf`). MISSING: `laxTbs bs = some t → t.wf`
+   ("the normal form the fork writes is canonical"). It is false at one boundary — normalising can *add* bytes (`00` seconds of a
+   UTCTime), so a content within two bytes of the fork's 2^31 length limit has a normal form the fork could not read back — and is
+   otherwise unproved (it needs the per-field canonical-form predicates for every accepted form). The driver evaluates `t.wf` for the
+   normal form of every traced input and answers `MODEL-INCONSISTENT normal-form-not-wf` if it fails; it never has. -/
+/-- **The two routes commute for every accepted input** whose content is the same up to the poison / SCT-list extension, whatever
+non-canonical form either input is written in (the forms need not even be the same on both sides). -/
+theorem routes_commute_accepted_partial (pre fin : Bytes) (t : Tbs) (es : List Ext) (i j : Nat) (pc sc : Bool) (pv sv : Bytes)
+    (hp : laxTbs pre = some (t.withExts (insertAt es i ⟨poisonOid, pc, pv⟩)))
+    (hf : laxTbs fin = some (t.withExts (insertAt es j ⟨sctOid, sc, sv⟩)))
+    (hnp : hasOid poisonOid es = false) (hns : hasOid sctOid es = false)
+    (hwp : (t.withExts (insertAt es i ⟨poisonOid, pc, pv⟩)).wf = true)
+    (hws : (t.withExts (insertAt es j ⟨sctOid, sc, sv⟩)).wf = true) :
+    buildPrecertTBSLax pre none = removeExtLax sctOid fin ∧
+    removeExtLax sctOid fin = some (marshalTbs (t.withExts es)) ∧
+    remarshalLax (marshalTbs (t.withExts es)) = some (marshalTbs (t.withExts es)) := by
+  obtain ⟨h1, hw⟩ := removeExtLax_insert pre t es i _ poisonOid rfl hnp hp hwp
+  obtain ⟨h2, _⟩ := removeExtLax_insert fin t es j _ sctOid rfl hns hf hws
+  have hl := lax_marshal _ hw
+  refine ⟨?_, h2, by simp [remarshalLax, hl]⟩
+  simp only [buildPrecertTBSLax, h1, hl, h2]
+
+/-- explicit v1 (`a0 03 02 01 00`) and a trailing OCTET STRING after the SubjectPublicKeyInfo: accepted, not canonical, and
+re-marshalled without either (8 bytes shorter) -/
+example :
+    let bs : Bytes := [0x30, 0x42, 0xa0, 0x03, 0x02, 0x01, 0x00, 0x02, 0x01, 0x05, 0x30, 0x05, 0x06, 0x03, 0x2b, 0x65, 0x70, 0x30, 0x00,
+      0x30, 0x1e, 0x17, 0x0d] ++ utc2030 ++ [0x17, 0x0d] ++ utc2049 ++
+      [0x30, 0x00, 0x30, 0x0a, 0x30, 0x05, 0x06, 0x03, 0x2b, 0x65, 0x70, 0x03, 0x01, 0x00, 0x04, 0x01, 0x00]
+    parseTbs bs = none ∧ (laxTbs bs).isSome = true ∧ remarshalLax bs ≠ some bs ∧
+    (remarshalLax bs).map List.length = some (bs.length - 8) := by
+  set_option maxRecDepth 100000 in decide
+
 /-! ## `buildPrecertTBS_cases` and the authority-key-id update -/
 
 /-- no extension of `A` is an authority key id -/
@@ -370,6 +466,12 @@ and carries the extensions `pe` plus the poison at any position `i`; the final c
 present/absent combinations of the authority key id (in the `append` case the relation *is* the hypothesis that the final
 issuer writes the key id as the last extension, non-critical). Then `BuildPrecertTBS(precert, preIssuer)` and
 `RemoveSCTList(final)` are the same bytes. -/
+/- FULL (quantifier "with and without authority key identifiers on either side"): for EVERY final certificate issued by the pre-issuer's
+   issuer for the same content. PROVED: for the final certificates whose extension list is `AkiRel p.aki pe fe`-related to the
+   precertificate's. MISSING, and false on the real code: precertificate without AKI + pre-issuer with AKI + a final certificate that
+   carries its AKI anywhere but last (or critical) — e.g. every certificate crypto/x509.CreateCertificate issues; the code appends the
+   key id at the end (`tbs.Extensions = append(tbs.Extensions, authKeyIDExt)`), so the two routes then differ, in exactly the position
+   of that one extension (asserted by the harness in that branch: `class:aki-appended-vs-library-placement…`). -/
 theorem routes_commute_preissuer (c : Tbs) (p : PreIssuer) (piName : Tlv) (pe fe : List Ext) (i j : Nat)
     (pc sc : Bool) (pv sv : Bytes) (hEku : p.ctEku = true) (hrel : AkiRel p.aki pe fe)
     (hnp : hasOid poisonOid pe = false) (hns : hasOid sctOid fe = false)
@@ -407,6 +509,16 @@ example (i j : Nat) :
     (AkiRel.append [exKU] _ (by intro e he; simp at he; subst he; decide)) (by decide) (by decide)
     (by set_option maxRecDepth 100000 in decide) (by set_option maxRecDepth 100000 in decide) i j
 
+/-- nothing but the poison / the SCT list, pre-issuer without authority key id: both routes keep the empty `[3]` field (`a3 02 30 00`) -/
+example :
+    buildPrecertTBS (marshalTbs (({ exBase with issuer := ⟨[0x30], [0x31, 0x01, 0x00]⟩ } : Tbs).withExts [exPoison])) (some { exPre with aki := none })
+      = removeExt sctOid (marshalTbs (({ exBase with issuer := exPre.issuer } : Tbs).withExts [exSct])) ∧
+    removeExt sctOid (marshalTbs (({ exBase with issuer := exPre.issuer } : Tbs).withExts [exSct]))
+      = some (marshalTbs (({ exBase with issuer := exPre.issuer } : Tbs).withExts [])) ∧
+    (marshalTbs (({ exBase with issuer := exPre.issuer } : Tbs).withExts [])).drop
+      ((marshalTbs (({ exBase with issuer := exPre.issuer } : Tbs).withExts [])).length - 4) = [0xa3, 0x02, 0x30, 0x00] := by
+  set_option maxRecDepth 100000 in decide
+
 /-- replace case: precertificate issued by the pre-issuer (issuer name `30 02 31 01`… here `30 00`-style stand-in, AKI key id 07),
 final certificate issued by the pre-issuer's issuer (AKI key id 09) -/
 example :
@@ -421,6 +533,19 @@ example :
   · set_option maxRecDepth 100000 in decide
 
 /-! ## the leaf builders -/
+
+/-- who is a pre-issuer is decided by the CT key purpose among the KeyPurposeIds of `chain[1]` — and by nothing else -/
+theorem preissuer_iff_ct_eku (c : Chain1) :
+    (preIssuerOf (some c) = some c.pre ↔ ctEkuOid ∈ c.ekus) ∧ (preIssuerOf (some c) = none ↔ ctEkuOid ∉ c.ekus) ∧
+    c.pre.ctEku = c.ekus.contains ctEkuOid ∧ preIssuerOf none = none := by
+  simp only [preIssuerOf, Chain1.hasCtEku, Chain1.pre]
+  by_cases h : ctEkuOid ∈ c.ekus
+  · simp [h]
+  · simp [h]
+
+example : preIssuerOf (some ⟨[[0x2b, 0x06, 0x01, 0x05, 0x05, 0x07, 0x03, 0x01], ctEkuOid], ⟨[0x30], []⟩, none⟩) ≠ none ∧
+    preIssuerOf (some ⟨[[0x2b, 0x06, 0x01, 0x04, 0x01, 0xd6, 0x79, 0x02, 0x04, 0x05]], ⟨[0x30], []⟩, none⟩) = none := by
+  decide
 
 /-- The chain-length guards of the two leaf builders, **regenerated** from serialization.go (`n = len(chain) = rest.length + 1`),
 are the list patterns of the model: too short ⇒ refused; long enough ⇒ the TBS transformation paired with the key of
@@ -505,19 +630,70 @@ theorem leaf_routes_commute_preissuer (c : Tbs) (p : PreIssuer) (piName : Tlv) (
   simp only [leafFromPrecertChain, leafForEmbeddedSCT, ← h1, h2]
   simp
 
-/-- **An embedded SCT verifies exactly when the log signed that precertificate.** Whatever the log signed and the client checks
-is a function `verify` of the entry (`ct.SerializeSCTSignatureInput` over the `PreCert` entry, then the signature check of
-C05): since both routes build the same entry, the verdict is the same — for the direct and the pre-issuer layout. -/
-theorem embedded_sct_verifies_iff {β : Type} (verify : Bytes × Bytes → β) (c : Tbs) (p : PreIssuer) (piName : Tlv) (pe fe : List Ext)
+/-! ### "an embedded SCT verifies exactly when the log signed that precertificate" -/
+
+/-- the bytes a log signs for a precert entry `(TBSCertificate, issuer SubjectPublicKeyInfo)`: RFC 6962 §3.2's
+`digitally-signed struct` (`Rfc.sctSigInputV1`, which C04 proves to be what `ct.SerializeSCTSignatureInput` writes) over
+`PreCert{issuer_key_hash = H(spki), tbs_certificate}`; `H` stands for SHA-256 -/
+def sctInput (H : Bytes → Bytes) (timestamp : Nat) (ext : Bytes) (e : Bytes × Bytes) : Option Bytes :=
+  Rfc.sctSigInputV1 ⟨0, timestamp, .precert ⟨H e.2, e.1⟩, ext⟩
+
+/-- the verdict of `VerifySCT` on an entry (C05: the signature check over exactly those bytes); no entry, no verdict -/
+def sctVerifies (S : SigV.Scheme) (H : Bytes → Bytes) (pk : SigV.Key) (hashAlg timestamp : Nat) (ext : Bytes) (sig : SigV.SigVal)
+    (e : Option (Bytes × Bytes)) : Bool :=
+  match e.bind (sctInput H timestamp ext) with
+  | some d => S.verify pk hashAlg d sig
+  | none => false
+
+/-- **Direct issuer.** For every signature: the SCT verifies over the entry built from the final certificate (embedded route)
+iff it verifies over the entry built from the precertificate chain; and an SCT that the log produced by signing the precertificate's
+entry does verify on the final certificate. (The converse of the second part is unforgeability of the scheme, which is not assumed.) -/
+theorem embedded_sct_verifies_iff_direct (S : SigV.Scheme) (H : Bytes → Bytes) (k : S.Priv) (hashAlg timestamp : Nat) (ext : Bytes)
+    (t : Tbs) (es : List Ext) (i j : Nat) (pc sc : Bool) (pv sv : Bytes) (kIssuer : Bytes) (r1 r2 : List Bytes)
+    (hnp : hasOid poisonOid es = false) (hns : hasOid sctOid es = false)
+    (hwp : (t.withExts (insertAt es i ⟨poisonOid, pc, pv⟩)).wf = true)
+    (hws : (t.withExts (insertAt es j ⟨sctOid, sc, sv⟩)).wf = true) :
+    (∀ sig, sctVerifies S H (S.pub k) hashAlg timestamp ext sig
+        (leafForEmbeddedSCT (marshalTbs (t.withExts (insertAt es j ⟨sctOid, sc, sv⟩))) (kIssuer :: r2))
+      = sctVerifies S H (S.pub k) hashAlg timestamp ext sig
+        (leafFromPrecertChain (marshalTbs (t.withExts (insertAt es i ⟨poisonOid, pc, pv⟩))) (kIssuer :: r1) none)) ∧
+    (∀ d, (leafFromPrecertChain (marshalTbs (t.withExts (insertAt es i ⟨poisonOid, pc, pv⟩))) (kIssuer :: r1) none).bind
+            (sctInput H timestamp ext) = some d →
+      sctVerifies S H (S.pub k) hashAlg timestamp ext (S.sign k hashAlg d)
+        (leafForEmbeddedSCT (marshalTbs (t.withExts (insertAt es j ⟨sctOid, sc, sv⟩))) (kIssuer :: r2)) = true) := by
+  have h := (leaf_routes_commute t es i j pc sc pv sv kIssuer r1 r2 hnp hns hwp hws).1
+  refine ⟨fun sig => by rw [h], ?_⟩
+  intro d hd
+  rw [← h]
+  simp [sctVerifies, hd, S.correct]
+
+/-- **Pre-issuer.** The same for the chain layouts `[precert, preIssuer, issuer, …]` / `[final, issuer, …]`. -/
+theorem embedded_sct_verifies_iff (S : SigV.Scheme) (H : Bytes → Bytes) (k : S.Priv) (hashAlg timestamp : Nat) (ext : Bytes)
+    (c : Tbs) (p : PreIssuer) (piName : Tlv) (pe fe : List Ext)
     (i j : Nat) (pc sc : Bool) (pv sv : Bytes) (kPre kIssuer : Bytes) (r1 r2 : List Bytes)
     (hEku : p.ctEku = true) (hrel : AkiRel p.aki pe fe)
     (hnp : hasOid poisonOid pe = false) (hns : hasOid sctOid fe = false)
     (hwp : (({ c with issuer := piName } : Tbs).withExts (insertAt pe i ⟨poisonOid, pc, pv⟩)).wf = true)
     (hws : (({ c with issuer := p.issuer } : Tbs).withExts (insertAt fe j ⟨sctOid, sc, sv⟩)).wf = true) :
-    (leafFromPrecertChain (marshalTbs (({ c with issuer := piName } : Tbs).withExts (insertAt pe i ⟨poisonOid, pc, pv⟩)))
-        (kPre :: kIssuer :: r1) (some p)).map verify
-      = (leafForEmbeddedSCT (marshalTbs (({ c with issuer := p.issuer } : Tbs).withExts (insertAt fe j ⟨sctOid, sc, sv⟩))) (kIssuer :: r2)).map verify := by
-  rw [(leaf_routes_commute_preissuer c p piName pe fe i j pc sc pv sv kPre kIssuer r1 r2 hEku hrel hnp hns hwp hws).1]
+    (∀ sig, sctVerifies S H (S.pub k) hashAlg timestamp ext sig
+        (leafForEmbeddedSCT (marshalTbs (({ c with issuer := p.issuer } : Tbs).withExts (insertAt fe j ⟨sctOid, sc, sv⟩))) (kIssuer :: r2))
+      = sctVerifies S H (S.pub k) hashAlg timestamp ext sig
+        (leafFromPrecertChain (marshalTbs (({ c with issuer := piName } : Tbs).withExts (insertAt pe i ⟨poisonOid, pc, pv⟩)))
+          (kPre :: kIssuer :: r1) (some p))) ∧
+    (∀ d, (leafFromPrecertChain (marshalTbs (({ c with issuer := piName } : Tbs).withExts (insertAt pe i ⟨poisonOid, pc, pv⟩)))
+            (kPre :: kIssuer :: r1) (some p)).bind (sctInput H timestamp ext) = some d →
+      sctVerifies S H (S.pub k) hashAlg timestamp ext (S.sign k hashAlg d)
+        (leafForEmbeddedSCT (marshalTbs (({ c with issuer := p.issuer } : Tbs).withExts (insertAt fe j ⟨sctOid, sc, sv⟩))) (kIssuer :: r2)) = true) := by
+  have h := (leaf_routes_commute_preissuer c p piName pe fe i j pc sc pv sv kPre kIssuer r1 r2 hEku hrel hnp hns hwp hws).1
+  refine ⟨fun sig => by rw [h], ?_⟩
+  intro d hd
+  rw [← h]
+  simp [sctVerifies, hd, S.correct]
+
+/-- the signature input is not vacuous: for the concrete direct-issuer example it exists (32-byte key hash, TBS within 2^24-1) -/
+example : ((leafFromPrecertChain (marshalTbs (exBase.withExts [exPoison, exKU])) [[1], [2]] none).bind
+    (sctInput (fun _ => List.replicate 32 0x11) 1234 [])).isSome = true := by
+  set_option maxRecDepth 100000 in decide
 
 /-- pre-issuer layout on concrete chains: `[precert, preIssuer(key 1), issuer(key 2)]` against `[final, issuer(key 2)]` -/
 example :
@@ -535,119 +711,77 @@ example : leafFromPrecertChain (marshalTbs (exBase.withExts [exPoison, exKU])) [
     leafForEmbeddedSCT (marshalTbs (exBase.withExts [exKU, exSct])) [] = none := by
   set_option maxRecDepth 100000 in decide
 
-/-! ## `sctlist_roundtrip` -/
+/-! ## `sctlist_roundtrip`
 
-/-- **The SCT list read back equals the list embedded, element for element** — for any limits whose length prefixes are two
-bytes wide (RFC 6962 §3.3: `opaque SerializedSCT<1..2^16-1>`, `SignedCertificateTimestampList<1..2^16-1>`): whatever
-`ASN1MarshalSCTs` / `tls.Marshal(SignedCertificateTimestampList)` + `asn1.Marshal` writes as the extension value, the
-certificate parser reads back as exactly the same list of `SerializedSCT`s. -/
-theorem sctlist_roundtrip_lim (lim : SctLimits) (hi : lim.itemMax < 65536) (hl : lim.listMax < 65536)
-    (l : List Bytes) (v : Bytes) (h : sctExtValue lim l = some v) : parseSctExtValue lim v = some l := by
-  simp only [sctExtValue, marshalSctList] at h
-  cases he : encSctItems lim l with
-  | none => simp [he] at h
-  | some b =>
-    simp only [he] at h
-    split at h
-    · simp at h
-    · rename_i hb
-      simp at h; subst h
-      have hb' : b.length < 65536 := by omega
-      have h2 : (beEnc 2 b.length).length = 2 := beEnc_length 2 _
-      have hok : (⟨[0x04], beEnc 2 b.length ++ b⟩ : Tlv).ok = true := by
-        simp [Tlv.ok, validTag_04, h2]; omega
-      simp only [parseSctExtValue, parseOne_encTlv _ hok, if_true, parseSctList]
-      have t2 : (beEnc 2 b.length ++ b).take 2 = beEnc 2 b.length := take_append_len _ _ _ h2
-      have d2 : (beEnc 2 b.length ++ b).drop 2 = b := drop_append_len _ _ _ h2
-      have hd : beDec (beEnc 2 b.length) = b.length := beDec_beEnc 2 _ (by simpa using hb')
-      rw [t2, d2, hd]
-      have c1 : ¬ (beEnc 2 b.length ++ b).length < 2 := by simp [h2]
-      have c2 : ¬ (b.length < lim.listMin ∨ lim.listMax < b.length) := hb
-      simp only [c1, c2, if_false, ne_eq, not_true_eq_false]
-      exact encSctItems_parse lim hi l b b.length he (Nat.le_refl _)
+The TLS layer of the SCT-list extension is the generic codec at the regenerated type `CtWire.tSCTList` (`Tls.enc` / `Tls.dec`,
+CTV/Tls/Codec.lean); the statements below follow from its round-trip theorem `Tls.dec_enc` and from C04's comparison of that
+type with RFC 6962 §3.3 (`C04.enc_sctList_sound`, `C04SctList.enc_sctList`), not from a codec written for this property. -/
 
-/-- the limits RFC 6962 §3.3 gives -/
-def rfcLim : SctLimits := ⟨1, 65535, 1, 65535⟩
+theorem sctList_wf : CtWire.tSCTList.wf = true := by
+  rw [CtWire.ty_SCTList]; exact CtWire.wf_SCTList _
 
-/-- the limits read from the struct tags are RFC 6962's (since the fix of finding C03-1 / F4, `maxlen:65335` → `65535`; a
-regression re-opens this theorem and the harness case `sctlist-rfc-valid`) -/
-theorem genLim_is_rfc : genLim = rfcLim := by
-  have h : Gen.sctItemMin = 1 ∧ Gen.sctItemMax = 65535 ∧ Gen.sctListMin = 1 ∧ Gen.sctListMax = 65535 := by decide
-  simp [genLim, rfcLim, h.1, h.2.1, h.2.2.1, h.2.2.2]
-
-/-- **every list RFC 6962 allows** is read back by the certificate parser as embedded -/
-theorem sctlist_roundtrip_rfc (l : List Bytes) (v : Bytes) (h : sctExtValue rfcLim l = some v) : parseSctExtValue genLim v = some l := by
-  rw [genLim_is_rfc]
-  exact sctlist_roundtrip_lim rfcLim (by decide) (by decide) l v h
-
-/-- the instance for the limits the code has today (regenerated from the struct tags) -/
-theorem sctlist_roundtrip (l : List Bytes) (v : Bytes) (h : sctExtValue genLim l = some v) : parseSctExtValue genLim v = some l := by
-  obtain ⟨_, hi, _, hl⟩ := genLim_two_byte_prefixes
-  exact sctlist_roundtrip_lim genLim hi hl l v h
-
-/-- what the code embeds is what RFC 6962 embeds: whenever the code's marshaller succeeds it writes the RFC encoding -/
-theorem sctlist_code_is_rfc (l : List Bytes) (v : Bytes) (h : sctExtValue genLim l = some v) : sctExtValue rfcLim l = some v := by
-  have hg : genLim.itemMin = 1 ∧ genLim.listMin = 1 ∧ genLim.itemMax ≤ 65535 ∧ genLim.listMax ≤ 65535 := by decide
-  obtain ⟨g1, g2, g3, g4⟩ := hg
-  have items : ∀ (l : List Bytes) (b : Bytes), encSctItems genLim l = some b → encSctItems rfcLim l = some b := by
-    intro l
-    induction l with
-    | nil => intro b hb; simpa [encSctItems] using hb
-    | cons s rest ih =>
-      intro b hb
-      simp only [encSctItems] at hb ⊢
-      split at hb
-      · simp at hb
-      · rename_i hc
-        cases hr : encSctItems genLim rest with
-        | none => simp [hr] at hb
-        | some r =>
-          simp only [hr] at hb
-          have hc' : ¬ (s.length < rfcLim.itemMin ∨ rfcLim.itemMax < s.length) := by
-            simp only [rfcLim]; omega
-          simp only [hc', if_false, ih r hr]
-          exact hb
-  simp only [sctExtValue, marshalSctList] at h ⊢
-  cases he : encSctItems genLim l with
-  | none => simp [he] at h
-  | some b =>
-    simp only [he] at h
-    rw [items l b he]
-    split at h
-    · simp at h
+/-- the marshaller's output: the generic codec's bytes for the regenerated type, which are the RFC 6962 §3.3 encoding
+(`C04.enc_sctList_sound`) and at most 2 + 65535 bytes long, wrapped in an OCTET STRING -/
+theorem sctlist_is_rfc (l : List Bytes) (v : Bytes) (h : sctExtValue l = some v) :
+    ∃ b, Tls.enc CtWire.tSCTList (CtWire.sctListVal l) = .ok b ∧ Rfc.sctList l = some b ∧ v = encTlv ⟨[0x04], b⟩ ∧ b.length ≤ 65537 := by
+  unfold sctExtValue at h
+  cases he : Tls.enc CtWire.tSCTList (CtWire.sctListVal l) with
+  | error e => simp [he] at h
+  | ok b =>
+    simp only [he, Option.some.injEq] at h
+    have hr := C04.enc_sctList_sound l b he
+    refine ⟨b, rfl, hr, h.symm, ?_⟩
+    simp only [Rfc.sctList, bind, Option.bind_eq_some_iff] at hr
+    obtain ⟨body, _, hv⟩ := hr
+    have hl := Rfc.varVector_length _ _ _ _ hv
+    unfold Rfc.varVector at hv
+    split at hv
     · rename_i hc
-      have hc' : ¬ (b.length < rfcLim.listMin ∨ rfcLim.listMax < b.length) := by
-        simp only [rfcLim]; omega
-      simp only [hc', if_false]
-      exact h
+      have : Rfc.lenWidth 65535 = 2 := by decide
+      omega
+    · cases hv
 
-/-- an empty list and an empty SCT cannot be embedded (`minlen:1` on both levels) -/
-theorem sctlist_min (l : List Bytes) (h : l = [] ∨ [] ∈ l) : sctExtValue genLim l = none := by
-  have hmin : genLim.itemMin = 1 ∧ genLim.listMin = 1 := by decide
-  rcases h with rfl | h
-  · simp [sctExtValue, marshalSctList, encSctItems, hmin.2]
-  · have : encSctItems genLim l = none := by
-      induction l with
-      | nil => simp at h
-      | cons s rest ih =>
-        simp only [encSctItems]
-        split
-        · rfl
-        · rename_i hb
-          simp at h
-          rcases h with h | h
-          · subst h; simp [hmin.1] at hb
-          · simp [ih h]
-    simp [sctExtValue, marshalSctList, this]
+/-- **The SCT list read back equals the list embedded, element for element**: whatever `ASN1MarshalSCTs` /
+`tls.Marshal(SignedCertificateTimestampList)` + `asn1.Marshal` writes as the extension value, the certificate parser
+(`asn1.Unmarshal` into `[]byte`, `tls.Unmarshal`, no rest on either level) reads back as exactly the same list of `SerializedSCT`s. -/
+theorem sctlist_roundtrip (l : List Bytes) (v : Bytes) (h : sctExtValue l = some v) : parseSctExtValue v = some l := by
+  obtain ⟨b, he, _, hv, hlen⟩ := sctlist_is_rfc l v h
+  have hok : (⟨[0x04], b⟩ : Tlv).ok = true := by simp [Tlv.ok, validTag_04]; omega
+  have hd := Tls.dec_enc CtWire.tSCTList _ b [] sctList_wf he
+  simp only [List.append_nil] at hd
+  rw [hv]
+  simp only [parseSctExtValue, parseOne_encTlv _ hok, if_true, hd]
+  exact sctListOfVal_sctListVal l
 
-example : sctExtValue genLim [] = none ∧ sctExtValue genLim [[0x01], []] = none ∧
-    sctExtValue rfcLim [[0xaa]] = sctExtValue genLim [[0xaa]] ∧ (sctExtValue genLim [[0xaa]]).isSome = true := by
-  set_option maxRecDepth 100000 in decide
+/-- **every list RFC 6962 allows** (`opaque SerializedSCT<1..2^16-1>`, `sct_list<1..2^16-1>`) can be embedded and is read back as
+embedded. This is the statement that finding C03-1 / F4 (`maxlen:65335`) violated; it is available because the regenerated tag now
+says 65535 (`C04SctList.tag_is_rfc`; on a tree with another bound that module is empty and this theorem does not build). -/
+theorem sctlist_roundtrip_rfc (l : List Bytes) (b : Bytes) (h : Rfc.sctList l = some b) :
+    sctExtValue l = some (encTlv ⟨[0x04], b⟩) ∧ parseSctExtValue (encTlv ⟨[0x04], b⟩) = some l := by
+  have he := C04SctList.enc_sctList l
+  rw [h, CtWire.eo_eq_some] at he
+  have hv : sctExtValue l = some (encTlv ⟨[0x04], b⟩) := by simp [sctExtValue, he]
+  exact ⟨hv, sctlist_roundtrip l _ hv⟩
 
-example : sctExtValue genLim [[0xaa, 0xbb], [0xcc]] = some [0x04, 0x09, 0x00, 0x07, 0x00, 0x02, 0xaa, 0xbb, 0x00, 0x01, 0xcc] ∧
-    parseSctExtValue genLim [0x04, 0x09, 0x00, 0x07, 0x00, 0x02, 0xaa, 0xbb, 0x00, 0x01, 0xcc] = some [[0xaa, 0xbb], [0xcc]] ∧
-    parseSctExtValue genLim [0x04, 0x0a, 0x00, 0x07, 0x00, 0x02, 0xaa, 0xbb, 0x00, 0x01, 0xcc, 0x00] = none ∧
-    parseSctExtValue genLim [0x04, 0x09, 0x00, 0x07, 0x00, 0x02, 0xaa, 0xbb, 0x00, 0x02, 0xcc] = none := by
-  set_option maxRecDepth 100000 in decide
+/-- an empty list and an empty SCT cannot be embedded (`<1..` on both levels) -/
+theorem sctlist_min (l : List Bytes) (h : l = [] ∨ [] ∈ l) : sctExtValue l = none := by
+  cases hv : sctExtValue l with
+  | none => rfl
+  | some v =>
+    exfalso
+    obtain ⟨b, _, hr, _, _⟩ := sctlist_is_rfc l v hv
+    rcases h with rfl | h
+    · simp [Rfc.sctList, Rfc.concatAll, Rfc.varVector, bind] at hr
+    · simp [Rfc.sctList, concatAll_empty_item l h, bind] at hr
+
+example : sctExtValue [] = none ∧ sctExtValue [[0x01], []] = none ∧ (sctExtValue [[0xaa]]).isSome = true := by
+  refine ⟨sctlist_min _ (Or.inl rfl), sctlist_min _ (Or.inr (by simp)), ?_⟩
+  decide +kernel
+
+example : sctExtValue [[0xaa, 0xbb], [0xcc]] = some [0x04, 0x09, 0x00, 0x07, 0x00, 0x02, 0xaa, 0xbb, 0x00, 0x01, 0xcc] ∧
+    parseSctExtValue [0x04, 0x09, 0x00, 0x07, 0x00, 0x02, 0xaa, 0xbb, 0x00, 0x01, 0xcc] = some [[0xaa, 0xbb], [0xcc]] ∧
+    parseSctExtValue [0x04, 0x0a, 0x00, 0x07, 0x00, 0x02, 0xaa, 0xbb, 0x00, 0x01, 0xcc, 0x00] = none ∧
+    parseSctExtValue [0x04, 0x09, 0x00, 0x07, 0x00, 0x02, 0xaa, 0xbb, 0x00, 0x02, 0xcc] = none := by
+  decide +kernel
 
 end C03
